@@ -25,11 +25,17 @@ Texts == <<
   << O("["), Tk("Id", "x"), O(","), Tk("Id", "undefined"), O("]") >>,                       \* [x, undefined]
   << O("("), Tk("Num", Big34), O("+"), Tk("Num", <<FALSE, <<5>>, -1>>), O(")"), O("-"), Tk("Num", Big34) >>,   \* (10^33 + 0.5) - 10^33 : a tie at the 34th digit
   << Tk("Id", "round"), O("("), Tk("Id", "x"), O(")") >>,                                   \* round(x)
-  << O("("), Tk("Id", "y"), O(")"), O("."), Tk("Id", "k") >>                                \* (y).k  : the analysis refuses it
+  << O("("), Tk("Id", "y"), O(")"), O("."), Tk("Id", "k") >>,                               \* (y).k  : the analysis refuses it
+  << Tk("Id", "y"), O("."), Tk("Id", "Name") >>                                             \* y.Name : over Go structs (data maps 4 and 5)
 >>
 Datas == << [x |-> <<"int", 2>>, y |-> <<"map", [k |-> <<"bool", TRUE>>]>>, fail |-> <<"func", "fail">>, crec |-> <<"func", "crec">>],
             [x |-> <<"dec", FALSE, <<2,5>>, -1>>, y |-> <<"map", [k |-> <<"int", 0>>]>>, fail |-> <<"func", "fail">>, crec |-> <<"func", "crec">>, t0 |-> <<"time", -719162, 0, 0>>],
-            [y |-> <<"nil">>, fail |-> <<"func", "fail">>, crec |-> <<"func", "crec">>] >>
+            [y |-> <<"nil">>, fail |-> <<"func", "fail">>, crec |-> <<"func", "crec">>],
+            \* two Go struct types with the same printed name and different layouts: what one evaluation learns about
+            \* a type must not reach the other
+            [y |-> <<"rowA">>], [y |-> <<"rowB">>] >>
+StructDatas == {4, 5}
+StructTexts == {10}
 
 ParseOf(i) == ParseTokens(Texts[i])
 EvalOf(i, j) == LET p == ParseOf(i) IN
@@ -39,7 +45,8 @@ EvalOf(i, j) == LET p == ParseOf(i) IN
 FieldsOf(i) == LET p == ParseOf(i) IN IF p[1] # "OK" THEN <<"noparse">> ELSE <<Fields(p[2]), FieldsNotLocal(p[2])>>
 
 VARIABLE hist
-Ops == { <<"parse", i>> : i \in 1..Len(Texts) } \cup { <<"eval", i, j>> : i \in 1..Len(Texts), j \in 1..Len(Datas) }
+Ops == { <<"parse", i>> : i \in 1..Len(Texts) } \cup { <<"eval", i, j>> : i \in 1..Len(Texts) \ StructTexts, j \in 1..Len(Datas) \ StructDatas }
+       \cup { <<"eval", i, j>> : i \in StructTexts, j \in 1..Len(Datas) }
        \cup { <<"fields", i>> : i \in 1..Len(Texts) }
 Res(op) == CASE op[1] = "parse" -> ParseOf(op[2]) [] op[1] = "eval" -> EvalOf(op[2], op[3]) [] op[1] = "fields" -> FieldsOf(op[2])
 
